@@ -208,7 +208,7 @@ def rule_13_1(rep, fx):
                 rep.ok('R13.1', key, '%s: %s' % (idiom, detail), b.where(*site))
             else:
                 rep.violation('R13.1', key, 'Poll::Pending returned with no wake-up arranged: %s' % detail, b.where(*site))
-    rep.floor('R13.1', n_sites, 13, 'Poll::Pending constructions')
+    rep.floor('R13.1', n_sites, 10, 'Poll::Pending constructions')
 
 
 def run(rep, facts, tier):
